@@ -35,7 +35,9 @@ DTS = [None, "1970-01-01T00:00:00", "2024-02-29T12:34:56.789012"]
 TDS = [None, 0, -5, 86400, 10 ** 9]
 OBJS = [None, {"a": 1}, [1, 2, 3], "multi\nline", 1.5, "plain", {"k": "中"}, "trail\n"]
 GEOMS = [None, {"type": "Point", "coordinates": [1, 2]}, {"type": "LineString", "coordinates": [[0, 0], [1, 1]]}]
-KINDS = ["float", "int", "bool", "str", "date", "datetime", "timedelta", "object"]
+KINDS = ["float", "int", "bool", "str", "date", "datetime", "timedelta", "object", "bytes", "ustr"]
+BYTES = ["", "Oslo", "\xc5lesund", "Troms\xf8", "\xff\xfe", "a b"]          # latin-1 images of the byte strings
+USTRS = ["", "a", "hello", "ä", "中文", "x y"]
 OPTS = [None, None, None, 1, 2, 3, 5, 10, 20, 200]
 OPTS0 = OPTS + [0]        # 0 is falsy: "use the default", like None
 
@@ -46,7 +48,7 @@ def fl(v):
 
 def gen_vals(rng, kind, n, ctrl=False):
     pool = {"float": FLOATS, "int": INTS, "bool": [True, False], "str": STRS + (CTRL if ctrl else []), "date": DATES, "datetime": DTS,
-            "timedelta": TDS, "object": OBJS}[kind]
+            "timedelta": TDS, "object": OBJS, "bytes": BYTES, "ustr": USTRS}[kind]
     if kind == "float" and rng.random() < 0.5:
         pool = [x for x in pool if not (isinstance(x, float) and (abs(x) > 1e16 or 0 < abs(x) < 1e-6))]
     return [rng.choice(pool) for _ in range(n)]
@@ -151,6 +153,10 @@ def make_column(kind, vals):
         return np.array([np.datetime64("NaT") if v is None else np.datetime64(v) for v in vals], dtype="M8[us]")
     if kind == "timedelta":
         return np.array([np.timedelta64("NaT") if v is None else np.timedelta64(v, "s") for v in vals], dtype="m8[s]")
+    if kind == "bytes":
+        return np.array([v.encode("latin-1") for v in vals], dtype="S9")
+    if kind == "ustr":
+        return np.array(vals, dtype="<U6")
     a = np.empty(len(vals), dtype=object)
     for i, v in enumerate(vals):
         a[i] = copy.deepcopy(v)
